@@ -443,6 +443,7 @@ func runC05(c *run.Ctx) {
 		}
 	}
 	c05Subscription(c, s, cat, flags)
+	c05TwoGoTypes(c)
 	// hostile values inside generated nested documents
 	nested := c.N(800, 30000)
 	for i := 0; i < nested && !c.TooMany(); i++ {
